@@ -24,6 +24,10 @@ PAIRS = [("X", "Y"), ("X", "Z"), ("Y", "X"), ("Y", "Z"), ("Z", "X"), ("Z", "Y")]
 def tasks(tier):
     t = [("t_flow", {"flow": fl, "pair": list(pr)}) for fl in ("simple_shear_2d", "cell_2d", "corner_2d") for pr in PAIRS]
     t += [("t_strain_increment", {}), ("t_pathline_helpers", {}), ("t_bad_axes", {})]
+    t += [("t_get_pathline", {"regular_steps": rs, "nodes": nd}) for rs, nd in ((None, 3), (1, 2), (3, 3))]
+    if tier == "thorough":
+        t += [("t_get_pathline", {"regular_steps": rs, "nodes": nd}) for rs, nd in ((None, 2), (None, 5), (2, 4), (6, 3))]
+    t += [("t_pathline_event", {"evals": 3 if tier == "quick" else 4})]
     return t
 
 
@@ -335,6 +339,251 @@ def t_pathline_helpers(sess):
                        z3.And(all_eq(f, sarr(np.zeros(3))), all_eq(j, sarr(np.zeros((3, 3))))))
 
 
+class _IvpSpy:
+    """scipy.integrate as seen by get_pathline: solve_ivp records its arguments and returns a nondeterministic
+    result that satisfies solve_ivp's documented contract for a backward integration (t[0] = t_span[0], nodes
+    strictly monotone towards t_span[1], a dense-output interpolant)."""
+
+    def __init__(self, nodes, exercise=None):
+        self.nodes, self.calls, self.exercise = nodes, [], exercise
+
+    def solve_ivp(self, fun, t_span, y0, method="RK45", t_eval=None, dense_output=False, events=None, vectorized=False, args=None, **options):
+        c = sym.ctx()
+        self.calls.append(dict(fun=fun, t_span=t_span, y0=y0, method=method, dense_output=dense_output, events=events, args=args, options=options, t_eval=t_eval))
+        ts = [R(t_span[0])] + [real(f"T{k}") for k in range(1, self.nodes)]
+        for a, b in zip(ts, ts[1:]):
+            c.assume((b < a).z3() if not (R(t_span[1]) > R(t_span[0])) else (b > a).z3())
+        c.assume((ts[-1] >= R(t_span[1])).z3() if not (R(t_span[1]) > R(t_span[0])) else (ts[-1] <= R(t_span[1])).z3())
+        if self.exercise is not None:
+            self.exercise(self.calls[-1])
+        spy = self
+
+        class Sol:
+            def __call__(self, t):
+                return quat.symvec("solx", 3)
+
+        class Path:
+            t = sarr(np.array(ts, dtype=object))
+            sol = Sol()
+            t_events = None
+            status = 1
+
+        spy.path = Path
+        return Path
+
+
+def t_get_pathline(sess, regular_steps, nodes):
+    """get_pathline around a nondeterministic solve_ivp: what it asks the integrator to do and what it returns."""
+    pl = pydrex_modules()["pathlines"]
+    sess.encode(pl.get_pathline)
+    sess.assume_env("scipy.integrate.solve_ivp by contract: result.t[0] = t_span[0], result.t strictly monotone towards t_span[1], result.sol is the dense interpolant of the solution of y' = fun(t, y, *args), y(t_span[0]) = y0, stopped at the first zero of a terminal event")
+    sess.outside_claim("accuracy of the integrated pathline (dx/dt = u within tolerance, staying inside the box) and the 1.25 x slack of the event location are properties of scipy's LSODA and root finder")
+    sess.bounds["get_pathline"] = f"{nodes} solver nodes, regular_steps = {regular_steps}; final location, box, strain limit symbolic"
+    spy = _IvpSpy(nodes)
+    u = lambda t, x: quat.symvec("u", 3)  # noqa: E731
+    Lg = lambda t, x: quat.symmat("L")  # noqa: E731
+
+    def fn():
+        spy.calls.clear()
+        x_end = quat.symvec("xe", 3)
+        lo = [real(f"lo{i}") for i in range(3)]
+        hi = [real(f"hi{i}") for i in range(3)]
+        smax = real("smax")
+        sym.ctx().assume((smax > 0).z3())
+        ts, interp = pl.get_pathline(x_end, u, Lg, lo, hi, smax, regular_steps=regular_steps, first_step=real("h0"), jac="user", events="user")
+        return x_end, lo, hi, smax, ts, interp
+
+    class Quiet:
+        def __getattr__(self, k):
+            return lambda *a, **kw: None
+
+    with patched((pl, "np", NpProxy()), (pl, "si", spy), (pl, "_log", Quiet())):
+        paths, _ = sym.explore(fn, catch=(Exception,))
+    tag = f"get_pathline[regular_steps={regular_steps}, nodes={nodes}]"
+    p = only_path(sess, paths)
+    if p.exc is not None:
+        sess.prove(f"{tag}: raises {type(p.exc).__name__}: {str(p.exc)[:80]}", p.pc, z3.BoolVal(False))
+        return
+    x_end, lo, hi, smax, ts, interp = p.value
+    sess.satisfiable(f"{tag}: reach", p.pc)
+    sess.prove(f"{tag}: exactly one integration", p.pc, z3.BoolVal(len(spy.calls) == 1))
+    c = spy.calls[0]
+    ev = c["events"]
+    ev = list(ev) if isinstance(ev, (list, tuple)) else [ev]
+    sess.prove(f"{tag}: integrates the flow helper _ivp_func with Jacobian _ivp_jac and a dense interpolant", p.pc,
+               z3.BoolVal(c["fun"] is pl._ivp_func and c["options"].get("jac") is pl._ivp_jac and c["dense_output"] is True and c["t_eval"] is None))
+    sess.prove(f"{tag}: starts at the requested final location at t = 0 and runs backwards in time", p.pc,
+               z3.And(all_eq(c["y0"], x_end), eq(R(c["t_span"][0]), 0), (R(c["t_span"][1]) < 0).z3(), z3.BoolVal(len(c["t_span"]) == 2)))
+    a = c["args"] or ()
+    sess.prove(f"{tag}: helper arguments are (velocity, gradient, min, max) of the caller", p.pc,
+               z3.BoolVal(len(a) == 4 and a[0] is u and a[1] is Lg and a[2] is lo and a[3] is hi))
+    sess.prove(f"{tag}: one terminal event (the strain / domain monitor); the user's events/jac keywords are dropped", p.pc,
+               z3.BoolVal(len(ev) == 1 and callable(ev[0]) and getattr(ev[0], "terminal", False) is True and getattr(ev[0], "direction", 0) == 0))
+    opts = c["options"]
+    sess.prove(f"{tag}: defaults LSODA, atol 1e-8, rtol 1e-5; other keywords passed through", p.pc,
+               z3.BoolVal(c["method"] == "LSODA" and opts.get("atol") == 1e-8 and opts.get("rtol") == 1e-5 and "first_step" in opts and set(opts) == {"jac", "atol", "rtol", "first_step"}))
+    sess.prove(f"{tag}: the returned interpolant is the integrator's dense output", p.pc, z3.BoolVal(interp is spy.path.sol))
+    T = list(np.asarray(spy.path.t, dtype=object).flat)
+    ts = list(np.asarray(ts, dtype=object).flat)
+    if regular_steps is None:
+        sess.prove(f"{tag}: timestamps are the integrator's nodes in increasing order", p.pc, z3.And(z3.BoolVal(len(ts) == len(T)), all_eq(ts, T[::-1])))
+    else:
+        sess.prove(f"{tag}: regular_steps + 1 timestamps from the earliest node to t = 0", p.pc, z3.And(z3.BoolVal(len(ts) == regular_steps + 1), eq(ts[0], T[-1])))
+        if regular_steps > 1:
+            sess.prove(f"{tag}: timestamps are equally spaced", p.pc, z3.And(*[eq(ts[k + 1] - ts[k], ts[1] - ts[0]) for k in range(len(ts) - 1)]))
+    sess.prove(f"{tag}: timestamps strictly increasing", p.pc, z3.And(*[(R(a_) < R(b_)).z3() for a_, b_ in zip(ts, ts[1:])]))
+    sess.prove(f"{tag}: last timestamp is exactly 0 (the requested final location)", p.pc, eq(ts[-1], 0))
+
+
+def t_pathline_event(sess, evals):
+    """The terminal event of get_pathline, evaluated (as scipy's root finder does) at an arbitrary sequence of
+    times t_k <= 0 in arbitrary order: inside the box in a homogeneous flow it equals max_strain - rate * |t_k|
+    whatever the order of evaluation, so it vanishes exactly when the accumulated strain is the requested maximum;
+    outside the box it is 0 (always terminate) and does not disturb later evaluations."""
+    mods = pydrex_modules()
+    pl, utils = mods["pathlines"], mods["utils"]
+    sess.encode(pl.get_pathline, utils.strain_increment, pl._is_inside)
+    sess.assume_env("np.linalg.eigvalsh by contract (specrad >= 0)")
+    sess.bounds["pathline event"] = f"{evals} evaluations of the event at arbitrary times <= 0, each inside or outside the box; homogeneous velocity gradient"
+    sess.outside_claim("inhomogeneous flows: the event integrates |dt| x rate(x_k) over the evaluation sequence (right-endpoint rule on scipy's evaluation points), so its zero is only within the stated 1.25 slack of the strain limit")
+    rec = {}
+
+    def exercise(call):
+        ev = call["events"]
+        ev = ev[0] if isinstance(ev, (list, tuple)) else ev
+        vals = []
+        for k in range(evals):
+            tk = real(f"te{k}")
+            sym.ctx().assume((tk <= 0).z3())
+            xk = quat.symvec(f"xp{k}_", 3)
+            vals.append((tk, xk, ev(tk, xk, *call["args"])))
+        rec["vals"] = vals
+
+    spy = _IvpSpy(2, exercise=exercise)
+    Lm = {}
+
+    def fn():
+        spy.calls.clear()
+        rec.clear()
+        Lm["L"] = quat.symmat("L")
+        lo = [real(f"lo{i}") for i in range(3)]
+        hi = [real(f"hi{i}") for i in range(3)]
+        smax = real("smax")
+        sym.ctx().assume((smax > 0).z3())
+        pl.get_pathline(quat.symvec("xe", 3), lambda t, x: quat.symvec("u", 3), lambda t, x: Lm["L"], lo, hi, smax)
+        return lo, hi, smax, rec["vals"], sym.ctx().notes.get("specrad_apps", [])
+
+    class Quiet:
+        def __getattr__(self, k):
+            return lambda *a, **kw: None
+
+    proxy = NpProxy(linalg={"eigvalsh": stubs.eigvalsh_stub})
+    with patched((pl, "np", NpProxy()), (utils, "np", proxy), (pl, "si", spy), (pl, "_log", Quiet())):
+        paths, info = sym.explore(fn, catch=(Exception,), max_paths=4096)
+    tag = f"pathline event[{evals} evaluations]"
+    sess.paths[tag] = {"paths": len(paths)}
+    if info["truncated"]:
+        sess.truncated = True
+    reached = 0
+    for pi, p in enumerate(paths):
+        if p.exc is not None:
+            sess.prove(f"{tag} path {pi}: raises {type(p.exc).__name__}: {str(p.exc)[:80]}", p.pc, z3.BoolVal(False))
+            continue
+        lo, hi, smax, vals, apps = p.value
+        reached += 1
+        claims = []
+        rho = apps[0][1] if apps else None
+        for tk, xk, v in vals:
+            inside = z3.And(*[z3.And((xk[i] >= lo[i]).z3(), (xk[i] <= hi[i]).z3()) for i in range(3)])
+            want_in = eq(v, smax + rho * tk) if rho is not None else z3.BoolVal(False)
+            claims.append(z3.If(inside, want_in, eq(v, 0)))
+        sess.prove(f"{tag} path {pi}: inside the box the event is max_strain - rate |t| for every evaluation order; outside it is 0", p.pc, z3.And(*claims))
+    sess.prove(f"{tag}: all 2^{evals} inside/outside patterns explored", [], z3.BoolVal(reached >= 2 ** evals))
+    if paths:
+        sess.satisfiable(f"{tag}: reach", paths[0].pc)
+
+
+def replay_pathline(case):
+    """Real get_pathline (real solve_ivp) in the three flows: end point, timestamps, dx/dt = u, box, strain."""
+    import numpy as np
+    from pydrex import pathlines, utils
+    from pydrex import velocity as vel
+
+    problems = []
+    lo, hi = np.array([-1.0, -1.0, -1.0]), np.array([1.0, 1.0, 1.0])
+    flows = {"simple_shear_2d": vel.simple_shear_2d("X", "Z", 1.0), "corner_2d": vel.corner_2d("X", "Z", 1.0)}
+    for name, (u, L) in flows.items():
+        for end in ([0.3, 0.0, -0.4], [-0.2, 0.0, -0.6]):
+            for steps in (None, 7):
+                for smax in (0.4, 2.0):
+                    end_a = np.array(end)
+                    ts, x = pathlines.get_pathline(end_a, u, L, lo, hi, smax, regular_steps=steps)
+                    ts = np.asarray(ts)
+                    where = f"{name}, end {end}, regular_steps {steps}, max_strain {smax}"
+                    if not (ts[-1] == 0 and np.all(np.diff(ts) > 0)):
+                        problems.append(f"{where}: timestamps not strictly increasing ending at 0: {ts[:3]}..{ts[-2:]}")
+                        continue
+                    if steps is not None and len(ts) != steps + 1:
+                        problems.append(f"{where}: {len(ts)} timestamps")
+                    if not np.allclose(x(0.0), end_a, atol=1e-9):
+                        problems.append(f"{where}: pathline does not end at the requested location")
+                    fine = np.linspace(ts[0], 0, 400)
+                    X = np.array([x(t) for t in fine])
+                    if np.any(X < lo - 1e-4) or np.any(X > hi + 1e-4):
+                        problems.append(f"{where}: leaves the box")
+                    V = np.gradient(X, fine, axis=0)[5:-5]
+                    U = np.array([u(np.nan, q) for q in X])[5:-5]
+                    if np.abs(V - U).max() > 2e-2 * max(1.0, np.abs(U).max()):
+                        problems.append(f"{where}: dx/dt differs from u(x) by {np.abs(V - U).max():.2e}")
+                    strain = sum(utils.strain_increment(fine[k + 1] - fine[k], L(np.nan, X[k + 1])) for k in range(len(fine) - 1))
+                    if strain > 1.25 * smax + 1e-6:
+                        problems.append(f"{where}: accumulated strain {strain:.3f} > 1.25 x {smax}")
+                    inside_all = np.all(X > lo + 1e-3) and np.all(X < hi - 1e-3)
+                    if inside_all and strain < 0.75 * smax:
+                        problems.append(f"{where}: pathline stops inside the domain at strain {strain:.3f} << {smax}")
+    # the terminal event itself, captured from the real call and evaluated the way a root finder does: out of order,
+    # inside and outside the box, in a homogeneous flow (event = max_strain - rate |t| inside, 0 outside)
+    from scipy import integrate as si
+
+    grabbed = {}
+    real_ivp = si.solve_ivp
+
+    def grab(fun, t_span, y0, **kw):
+        grabbed.update(kw, fun=fun, t_span=t_span, y0=np.array(y0))
+        return real_ivp(fun, t_span, y0, **kw)
+
+    u, L = vel.simple_shear_2d("X", "Z", 1.0)
+    rate = utils.strain_increment(1.0, L(np.nan, np.zeros(3)))
+    si.solve_ivp = grab
+    try:
+        pathlines.get_pathline(np.array([0.3, 0.0, -0.4]), u, L, lo, hi, 5.0)
+    finally:
+        si.solve_ivp = real_ivp
+    ev = grabbed["events"]
+    ev = ev[0] if isinstance(ev, (list, tuple)) else ev
+    inside, outside = np.array([0.1, 0.0, 0.2]), np.array([0.1, 0.0, 1.7])
+    for seq in ([(-0.1, inside), (-0.3, inside), (-0.2, inside)], [(-0.1, inside), (-0.25, outside), (-0.2, inside), (-0.4, inside)],
+                [(-0.5, outside), (-0.05, inside)]):
+        si.solve_ivp = grab
+        try:
+            pathlines.get_pathline(np.array([0.3, 0.0, -0.4]), u, L, lo, hi, 5.0)
+        finally:
+            si.solve_ivp = real_ivp
+        ev = grabbed["events"][0] if isinstance(grabbed["events"], (list, tuple)) else grabbed["events"]
+        # the integration above has already advanced the closure's state: only differences are comparable
+        base_t, base_v = None, None
+        for t, x in seq:
+            v = ev(t, x, *grabbed["args"])
+            if x is outside:
+                if v != 0:
+                    problems.append(f"terminal event outside the box returns {v}, not 0")
+                continue
+            if base_t is not None and not np.isclose(v - base_v, rate * (t - base_t), atol=1e-12):
+                problems.append(f"terminal event: value changes by {v - base_v:.4f} between t = {base_t} and t = {t} in a flow of rate {rate} (expected {rate * (t - base_t):.4f})")
+            base_t, base_v = t, v
+    return {"reproduced": bool(problems), "detail": sorted(set(problems))[:6] or "pathlines consistent"}
+
+
 def t_bad_axes(sess):
     """Axis pairs outside the six ordered pairs are rejected by every constructor."""
     vel = pydrex_modules()["velocity"]
@@ -354,4 +603,6 @@ def t_bad_axes(sess):
 
 def default_cex(name):
     """Generic public-API replay for verdicts that carry no more specific counterexample."""
+    if name.startswith(("get_pathline", "pathline event")):
+        return {"replay": "vf.props.C18:replay_pathline", "case": {}, "cls": {"kind": "pathline construction inconsistent"}}
     return {"replay": "vf.props.replays:c18_flows", "case": {}, "cls": {"kind": "flow / strain increment inconsistent beyond the recorded defects"}}
